@@ -2299,8 +2299,15 @@ def _contains(token: TokenT, left: object, right: object) -> bool:
     if isinstance(left, range):
         # Membership of a range is arithmetic for an integer. Python compares
         # anything else with every item, however many there are.
-        if isinstance(right, (float, Decimal)) and right == right // 1:
-            right = int(right)
+        if isinstance(right, (float, Decimal)):
+            try:
+                if not min(left.start, left.stop) <= right <= max(left.start, left.stop):
+                    return False
+                if right == int(right):
+                    right = int(right)
+            except (ArithmeticError, ValueError):
+                # Infinity, NaN, or a decimal beyond the precision of its context.
+                return False
         return isinstance(right, int) and right in left
     if isinstance(left, Collection):
         try:
